@@ -19,6 +19,23 @@ func (cx *Ctx) c15Calls(r *rng, k int) []spec.Call {
 		if len(es) > 16 {
 			es = es[:16]
 		}
+		if r.chance(12) {
+			// two wide adjacent layers (fast paths and pooled buffers are often guarded by a size threshold)
+			es = nil
+			a, b := r.between(7, 11), r.between(7, 11)
+			for x := 0; x < a; x++ {
+				es = append(es, edge(100, x))
+				for y := 0; y < b; y++ {
+					if r.chance(30) {
+						es = append(es, edge(x, 20+y))
+					}
+				}
+			}
+			for y := 0; y < b; y++ {
+				es = append(es, edge(r.intn(a), 20+y))
+			}
+			shuffleEdges(r, es)
+		}
 		o := genOptions(r, es, gc)
 		if o.P5 == "splines" && r.chance(70) {
 			o.P5 = "polyline"
@@ -32,11 +49,14 @@ func c15Schedules(r *rng, n int) []*spec.Schedule {
 	var out []*spec.Schedule
 	out = append(out, &spec.Schedule{Policy: "rr"})
 	for len(out) < n {
-		switch r.intn(3) {
+		switch r.intn(4) {
 		case 0:
 			out = append(out, &spec.Schedule{Policy: "random", Seed: r.next(), EntryPct: pick(r, 0, 0, 3, 15)})
 		case 1:
 			out = append(out, &spec.Schedule{Policy: "pct", Seed: r.next(), Depth: r.between(1, 3), EntryPct: pick(r, 0, 3)})
+		case 2:
+			// preemption inside loops: reaches interleavings over heap objects shared through a pool or an alias
+			out = append(out, &spec.Schedule{Policy: pick(r, "random", "rr"), Seed: r.next(), LoopPct: pick(r, 5, 30, 150), EntryPct: pick(r, 0, 5)})
 		default:
 			out = append(out, &spec.Schedule{Policy: "rr", Seed: r.next(), EntryPct: pick(r, 1, 5, 25)})
 		}
@@ -67,7 +87,7 @@ func (cx *Ctx) oracleC15(rs []JobResult) (bool, string, string, string) {
 	}
 	sched := "default schedule"
 	if jr.Job.Sched != nil {
-		sched = fmt.Sprintf("schedule %s(seed %d, depth %d, entry yields %d%%)", jr.Job.Sched.Policy, jr.Job.Sched.Seed, jr.Job.Sched.Depth, jr.Job.Sched.EntryPct)
+		sched = fmt.Sprintf("schedule %s(seed %d, depth %d, entry yields %d%%, loop yields %d/1000)", jr.Job.Sched.Policy, jr.Job.Sched.Seed, jr.Job.Sched.Depth, jr.Job.Sched.EntryPct, jr.Job.Sched.LoopPct)
 		if jr.Job.Sched.Policy == "explicit" {
 			sched = fmt.Sprintf("explicit schedule %v", jr.Job.Sched.Explicit)
 		}
@@ -285,7 +305,7 @@ func (cx *Ctx) c15Shrink(job *spec.Job, key, what, fp string) {
 	}
 	deadline := time.Now().Add(60 * time.Second)
 	// 1. make the schedule explicit
-	if rs[0].Res != nil && len(rs[0].Res.SchedRLE) > 0 && j.Sched != nil && j.Sched.EntryPct == 0 {
+	if rs[0].Res != nil && len(rs[0].Res.SchedRLE) > 0 && j.Sched != nil && j.Sched.EntryPct == 0 && j.Sched.LoopPct == 0 {
 		e := j
 		e.Sched = &spec.Schedule{Policy: "explicit", Explicit: rs[0].Res.SchedRLE}
 		if ok, _ := cx.c15Violates(&e, key); ok {
@@ -347,7 +367,7 @@ func (cx *Ctx) c15Shrink(job *spec.Job, key, what, fp string) {
 		j = *build(items, j.Sched)
 	}
 	// 4. explicit schedule with the fewest context switches
-	if ok, rs := cx.c15Violates(&j, key); ok && rs[0].Res != nil && (j.Sched == nil || j.Sched.EntryPct == 0) {
+	if ok, rs := cx.c15Violates(&j, key); ok && rs[0].Res != nil && (j.Sched == nil || (j.Sched.EntryPct == 0 && j.Sched.LoopPct == 0)) {
 		rle := rs[0].Res.SchedRLE
 		e := j
 		e.Sched = &spec.Schedule{Policy: "explicit", Explicit: rle}
